@@ -25,8 +25,6 @@ theorem swap_getD (w : WorkData) (aVar aReg bVar bReg r : Nat) (ha : aReg < w.ph
     · subst h2; simp only [if_true]; exact getD_set_eq _ _ _ _ ha
     · simp only [h2, if_false]; exact getD_set_ne _ _ _ _ _ (fun h => h2 h.symm)
 
-/-- the `hi` register type of the exchange -/
-def swapRt (a b : Nat) : Nat := let hi := max a b; if 2 ≤ hi && hi ≤ 4 then 5 else hi
 
 theorem swapRt_range {a b : Nat} (ha : groupOf a = 0) (hb : groupOf b = 0) : 5 ≤ swapRt a b ∧ swapRt a b ≤ 6 ∧ groupOf (swapRt a b) = 0 := by
   have h1 := groupOf_zero ha
@@ -90,8 +88,8 @@ theorem swap_ok (p : Params) (hy : Hyp p) (e : Emit) (M : State) (hw : WF p e M)
   have hrt := swapRt_range (a := v.cur.regType) (b := a.cur.regType) (by rw [hgv]; exact hg0.1) (by rw [hag]; exact hg0.1)
   generalize hrtdef : swapRt v.cur.regType a.cur.regType = rt at hrt hins
   have hsw := hy.swap i altId hi haltLt (fun h => hai h.symm) (by rw [← hcv]; exact hswp)
-    (by rw [← hcv, ← hca, hgv, hag]) (by rw [← hv.out, ← hca]; exact hareg.symm) (by rw [← ha.out, ← hcv]; exact hcond) rt hrt.1 hrt.2.1
-  rw [← htv, ← hta] at hsw
+    (by rw [← hcv, ← hca, hgv, hag]) (by rw [← hv.out, ← hca]; exact hareg.symm) (by rw [← ha.out, ← hcv]; exact hcond)
+  rw [← hcv, ← hca, hrtdef, ← htv, ← hta] at hsw
   have hinsdef : ins = ⟨.xchg, false, [.reg rt v.out.regId, .reg rt v.cur.regId]⟩ := by
     unfold regSwap at hins
     simp [hg0.2, hrt.2.2] at hins
@@ -158,7 +156,7 @@ theorem swap_ok (p : Params) (hy : Hyp p) (e : Emit) (M : State) (hw : WF p e M)
     · intro heq; rw [heq, hvphys] at hpj; exact h1 (Option.some.inj hpj).symm
   have swapTok_var : ∀ t, (swapTok p.vis rt t).var = t.var := by
     intro t; unfold swapTok; split <;> exact moveTok_var _ _ _ _ _
-  refine ⟨M', ⟨?_, ?_, ?_, ?_, ?_, ?_⟩, ?_, ?_⟩
+  refine ⟨M', ⟨?_, ?_, ?_, ?_, ?_, ?_, ?_⟩, ?_, ?_⟩
   · show c'.vars.length = p.n
     rw [← hc'']; simp [Ctx.setVar, Ctx.setW, hcl]
   · show c'.wd.length = 4
@@ -255,6 +253,8 @@ theorem swap_ok (p : Params) (hy : Hyp p) (e : Emit) (M : State) (hw : WF p e M)
       have h1 : j' ≠ i := by intro hh; rw [hh, hvdef] at a2; exact hgg (a2.symm.trans hgv)
       have h2 : j' ≠ altId := by intro hh; rw [hh, hadef] at a2; exact hgg (a2.symm.trans hag)
       rw [hvar'j j' h1 h2]; exact ⟨a1, a2, a3⟩
+  · show c'.hasStackSrc = false
+    rw [← hc'']; exact hw.hss
   · intro j hj hd
     by_cases hji : j = i
     · subst hji; rw [hvar'i, hv'def]
